@@ -242,3 +242,93 @@ theorem objects_section_eq_denote (k : Int) (hk : 1 ≤ k) (O : List Str) (hwf :
             exact ⟨i1, trivial⟩
 
 end Reamber.Osu
+
+namespace Reamber.Osu
+
+/-! ### the converse: what the reader accepts, the denotation accepts, with the same result -/
+
+theorem mapE_cons_ok {α β} (f : α → Except Err β) (a : α) (t : List α) (r : List β) (h : mapE f (a :: t) = .ok r) :
+    ∃ b r', f a = .ok b ∧ mapE f t = .ok r' ∧ r = b :: r' := by
+  rw [mapE] at h
+  cases hfa : f a with
+  | error e => rw [hfa] at h; simp at h
+  | ok b =>
+    rw [hfa] at h
+    cases ht : mapE f t with
+    | error e => rw [ht] at h; simp at h
+    | ok r' =>
+      rw [ht] at h
+      simp only [Except.ok.injEq] at h
+      exact ⟨b, r', rfl, rfl, h.symm⟩
+
+theorem timing_section_denote_of_read (T : List Str) (hwf : ∀ l ∈ T, wfTimingLine l = true) (bs : List Bpm)
+    (ss : List Sv) (hb : mapE readBpm (T.filter isTimingPoint) = .ok bs)
+    (hs : mapE readSv (T.filter isSliderVelocity) = .ok ss) :
+    ∃ tps, filterMapE denoteTiming T = .ok tps ∧ tps.filterMap tpBpm = bs ∧ tps.filterMap tpSv = ss := by
+  induction T generalizing bs ss with
+  | nil =>
+    simp only [List.filter_nil, mapE, Except.ok.injEq] at hb hs
+    exact ⟨[], rfl, by rw [← hb]; rfl, by rw [← hs]; rfl⟩
+  | cons l t ih =>
+    obtain ⟨heq, hcls⟩ := readTiming_eq_denote l (hwf l (by simp))
+    have hwf' : ∀ l' ∈ t, wfTimingLine l' = true := fun l' hl' => hwf l' (by simp [hl'])
+    by_cases htp : isTimingPoint l = true
+    · have hsv : isSliderVelocity l = false := by
+        cases h : isSliderVelocity l
+        · rfl
+        · exact absurd ⟨htp, h⟩ (isTP_isSV_excl l)
+      simp only [List.filter_cons, htp, hsv, if_true, Bool.false_eq_true, if_false] at hb hs
+      obtain ⟨b, bs', hb1, hb2, rfl⟩ := mapE_cons_ok _ _ _ _ hb
+      obtain ⟨tps, h1, h2, h3⟩ := ih hwf' bs' ss hb2 hs
+      rw [if_pos htp, hb1] at heq
+      refine ⟨.bpm b :: tps, ?_, ?_, ?_⟩
+      · rw [filterMapE, heq, h1]; rfl
+      · rw [List.filterMap_cons]; show b :: _ = b :: _; rw [h2]
+      · rw [List.filterMap_cons]; exact h3
+    · have htp' : isTimingPoint l = false := by simpa using htp
+      have hsv : isSliderVelocity l = true := by rcases hcls with h | h; exact absurd h htp; exact h
+      simp only [List.filter_cons, htp', hsv, if_true, Bool.false_eq_true, if_false] at hb hs
+      obtain ⟨b, ss', hs1, hs2, rfl⟩ := mapE_cons_ok _ _ _ _ hs
+      obtain ⟨tps, h1, h2, h3⟩ := ih hwf' bs ss' hb hs2
+      rw [if_neg htp, hs1] at heq
+      refine ⟨.sv b :: tps, ?_, ?_, ?_⟩
+      · rw [filterMapE, heq, h1]; rfl
+      · rw [List.filterMap_cons]; exact h2
+      · rw [List.filterMap_cons]; show b :: _ = b :: _; rw [h3]
+
+theorem objects_section_denote_of_read (k : Int) (hk : 1 ≤ k) (O : List Str) (hwf : ∀ l ∈ O, wfObjLine l = true)
+    (hs : List Hit) (ds : List Hold) (hh : mapE (fun s => readHit s k) (O.filter isHit) = .ok hs)
+    (hd : mapE (fun s => readHold s k) (O.filter isHold) = .ok ds) :
+    ∃ objs, filterMapE (denoteObj k) O = .ok objs ∧ objs.filterMap objHit = hs ∧ objs.filterMap objHold = ds := by
+  induction O generalizing hs ds with
+  | nil =>
+    simp only [List.filter_nil, mapE, Except.ok.injEq] at hh hd
+    exact ⟨[], rfl, by rw [← hh]; rfl, by rw [← hd]; rfl⟩
+  | cons l t ih =>
+    obtain ⟨heq, hcls⟩ := readObj_eq_denoteObj k hk l (hwf l (by simp))
+    have hwf' : ∀ l' ∈ t, wfObjLine l' = true := fun l' hl' => hwf l' (by simp [hl'])
+    by_cases hit : isHit l = true
+    · have hho : isHold l = false := by
+        cases h : isHold l
+        · rfl
+        · exact absurd ⟨hit, h⟩ (isHit_isHold_excl l)
+      simp only [List.filter_cons, hit, hho, if_true, Bool.false_eq_true, if_false] at hh hd
+      obtain ⟨b, hs', h1, h2, rfl⟩ := mapE_cons_ok _ _ _ _ hh
+      obtain ⟨objs, g1, g2, g3⟩ := ih hwf' hs' ds h2 hd
+      rw [if_pos hit, h1] at heq
+      refine ⟨.hit b :: objs, ?_, ?_, ?_⟩
+      · rw [filterMapE, heq, g1]; rfl
+      · rw [List.filterMap_cons]; show b :: _ = b :: _; rw [g2]
+      · rw [List.filterMap_cons]; exact g3
+    · have hit' : isHit l = false := by simpa using hit
+      have hho : isHold l = true := by rcases hcls with h | h; exact absurd h hit; exact h
+      simp only [List.filter_cons, hit', hho, if_true, Bool.false_eq_true, if_false] at hh hd
+      obtain ⟨b, ds', h1, h2, rfl⟩ := mapE_cons_ok _ _ _ _ hd
+      obtain ⟨objs, g1, g2, g3⟩ := ih hwf' hs ds' hh h2
+      rw [if_neg hit, h1] at heq
+      refine ⟨.hold b :: objs, ?_, ?_, ?_⟩
+      · rw [filterMapE, heq, g1]; rfl
+      · rw [List.filterMap_cons]; exact g2
+      · rw [List.filterMap_cons]; show b :: _ = b :: _; rw [g3]
+
+end Reamber.Osu
